@@ -76,6 +76,12 @@ class Env:
             a[idx] = self.real(name + '_' + '_'.join(map(str, idx)), **kw)
         return a
 
+    def lookup(self, name, default=1.0):
+        """an input created earlier on this path (e.g. by a HavocU object inside the code under test)"""
+        if self.sym:
+            return SR(self.inputs[name])
+        return float(Fraction(self.values[name])) if name in self.values else float(default)
+
     def const(self, x):
         """a literal that should be SR in sym mode and float in conc mode"""
         return SR.lift(x) if self.sym else float(x)
@@ -115,6 +121,12 @@ class Env:
 
     def sqrt(self, x):
         return self._fn('sqrt', x)
+
+    def sinpi(self, num, den):
+        """sin(pi*num/den): exact algebraic value (sym) / math.sin (conc)"""
+        if self.sym:
+            return core.sinpi(num, den)
+        return math.sin(math.pi * num / den)
 
     # ------------------------------------------------------------------ assumptions
     def assume(self, cond):
@@ -166,7 +178,30 @@ class Env:
     def mark(self):
         return len(self.ctx.pc) if self.sym else 0
 
-    def claim(self, key, cond, robust=None, under=None, canary=False, timeout_ms=None):
+    def _abstract_query(self, ctx, pc, e, srs):
+        """generalise the query: the listed intermediate results (SR objects) are replaced by fresh variables
+        (numerator and denominator separately, denominator != 0) in the claim, the assumptions, the path condition
+        and the facts about algebraic constants; side conditions and function axioms are dropped. Every step only
+        weakens the hypotheses, so `unsat` here implies the original obligation."""
+        subs = []; facts = []
+        seen = set()
+        for k, s in enumerate(srs):
+            for part in ('n', 'd'):
+                t = getattr(s, part)
+                if z3.is_rational_value(t) or (z3.is_const(t) and t.decl().kind() == z3.Z3_OP_UNINTERPRETED) or t.get_id() in seen:
+                    continue
+                seen.add(t.get_id())
+                v = z3.Real('abs!%d%s' % (k, part))
+                subs.append((t, v))
+                if part == 'd':
+                    facts.append(v != 0)
+        if not subs:
+            return None
+        alg = [f for f in ctx.axioms if _mentions(f, set(ctx.alg)) and not _mentions_prefix(f, ('exp!', 'log!', 'sin!', 'cos!', 'sqrt!'))]
+        base = [z3.substitute(f, *subs) for f in (ctx.assumes + pc + alg)] + facts
+        return base, z3.substitute(e, *subs)
+
+    def claim(self, key, cond, robust=None, under=None, canary=False, timeout_ms=None, abstract=None):
         """The code satisfies ``cond`` on this path for every value of the inputs.
         key identifies the obligation (and the known-finding entry, if any).
         canary=True: ``cond`` is deliberately wrong and MUST be refuted (vacuity / sat-side guard)."""
@@ -193,6 +228,19 @@ class Env:
         if sig in self.cache:
             return
         self.cache[sig] = True
+        if abstract and not canary:
+            q = self._abstract_query(ctx, pc, e, abstract)
+            if q is not None:
+                t0 = time.time()
+                sv = z3.Solver(); sv.set('timeout', timeout_ms or self.timeout_ms)
+                sv.add(*q[0]); sv.add(z3.Not(q[1]))
+                r = str(sv.check()); dt = time.time() - t0
+                self.stats['queries'] += 1; self.stats['solver_s'] += dt; self.stats['max_query_s'] = max(self.stats['max_query_s'], dt)
+                if r == 'unsat':
+                    self.stats['abstracted'] = self.stats.get('abstracted', 0) + 1
+                    self.results.append(dict(key=key, verdict='holds', s=round(dt, 3), canary=False, abstracted=True,
+                                             path=''.join('T' if d[0] else 'F' for d in ctx.decisions[:ctx.pos])))
+                    return
         t0 = time.time()
         sv = z3.Solver()
         sv.set('timeout', timeout_ms or self.timeout_ms)
@@ -207,6 +255,14 @@ class Env:
         rec = dict(key=key, verdict=None, s=round(dt, 3), path=path, canary=canary)
         if canary:
             self.canary_expected += 1
+            if r != 'sat':
+                # sat side of nlsat can be slow on large systems: a counterexample to the (deliberately wrong) canary
+                # with all inputs fixed to seeded random rationals is just as good
+                rnd = random.Random(self.seed * 31 + 7)
+                for _ in range(4):
+                    fixed = {n: Fraction(rnd.randint(1, 24), rnd.choice([2, 3, 4, 5, 8])) for n in self.inputs}
+                    if self._ladder_query(base, z3.Not(e), fixed, ctx) is not None:
+                        r = 'sat'; break
             if r == 'sat':
                 self.canary_caught += 1
                 rec['verdict'] = 'canary-refuted'
@@ -235,7 +291,7 @@ class Env:
             rec['verdict'] = 'unknown'
         self.results.append(rec)
 
-    def claim_eq(self, key, a, b, under=None, per_element=True, timeout_ms=None):
+    def claim_eq(self, key, a, b, under=None, per_element=True, timeout_ms=None, abstract=None):
         """a == b (scalars or arrays of equal shape), one obligation per element."""
         if isinstance(a, (_np.ndarray, list, tuple)) or isinstance(b, (_np.ndarray, list, tuple)):
             aa = _np.asarray(a); ba = _np.asarray(b)
@@ -243,7 +299,7 @@ class Env:
                 self.claim(key + ':shape', False if not self.sym else SB(z3.BoolVal(False)), under=under)
                 return
             for idx in _np.ndindex(*aa.shape):
-                self.claim_eq('%s[%s]' % (key, ','.join(map(str, idx))), aa[idx], ba[idx], under=under, timeout_ms=timeout_ms)
+                self.claim_eq('%s[%s]' % (key, ','.join(map(str, idx))), aa[idx], ba[idx], under=under, timeout_ms=timeout_ms, abstract=abstract)
             return
         if self.sym:
             x = SR.lift(a); y = SR.lift(b)
@@ -252,7 +308,7 @@ class Env:
             diff = x.n * y.d - y.n * x.d
             den = x.d * y.d
             robust = diff * diff > rv(Fraction(1, 10 ** 6)) * den * den
-            self.claim(key, SB(eqc(x, y)), robust=robust, under=under, timeout_ms=timeout_ms)
+            self.claim(key, SB(eqc(x, y)), robust=robust, under=under, timeout_ms=timeout_ms, abstract=abstract)
         else:
             self.claim(key, self.eq(a, b))
 
@@ -437,6 +493,19 @@ class Env:
         sv.add(z3.substitute(neg, *allsubs))
         t0 = time.time(); r = str(sv.check()); self.stats['queries'] += 1; self.stats['solver_s'] += time.time() - t0
         return sv.model() if r == 'sat' else None
+
+
+def _mentions_prefix(f, prefixes):
+    seen = set(); stack = [f]
+    while stack:
+        t = stack.pop()
+        if t.get_id() in seen:
+            continue
+        seen.add(t.get_id())
+        if z3.is_const(t) and t.decl().kind() == z3.Z3_OP_UNINTERPRETED and str(t).startswith(prefixes):
+            return True
+        stack.extend(t.children())
+    return False
 
 
 def _mentions(f, names):
